@@ -3,6 +3,7 @@ from .std import *
 from . import ref as R_
 from .c08 import rule
 from mirsym.models import seq_cmp
+from .cksum import RefCk
 
 ID = 'C09'
 PROGS = ['default']
@@ -136,6 +137,16 @@ def h_seq(L, T, ty, name, steps):
     elif len(final_name) == 0:
         must_fail = 'Parse(MissingRequiredField(Name))' if T == 'Purl' else 'MissingRequiredField(Name)'
     unspecified = tyname == 'maven' and len(R.ns) > 0 and not ns_segs and not R.err     # namespace made of '/' only
+    ck_canon = None
+    for k, v in R.q:
+        if all(isinstance(x, int) for x in k) and bytes(k) == b'checksum' and len(v) > 0 and must_fail is None:
+            okc, entries = R_.read_checksum(L, v)
+            if not okc:
+                must_fail = 'Parse(InvalidQualifier)' if T == 'Purl' else 'InvalidQualifier'
+            else:
+                rc = RefCk()
+                rc.e = [(a, list(h)) for a, h in entries]
+                ck_canon = rc.canonical(L)[1]
     if kind == 'err':
         L.expect_native(req, {'err': res})
         if must_fail is None and not unspecified:
@@ -164,6 +175,11 @@ def h_seq(L, T, ty, name, steps):
     want_sub = segs(L, R.sub, True)
     L.check('subpath segments == what was set', segs_eq_term(segs(L, acc['sub'], True), want_sub))
     wq = R.quals_sorted(L)
+    if ck_canon is not None:
+        wq = [(k, ck_canon if (all(isinstance(x, int) for x in k) and bytes(k) == b'checksum') else v) for k, v in wq]
+    if any(len(a[1]) != len(b[1]) for a, b in zip(wq, acc['quals'])):
+        L.fail('a qualifier value differs in length from what was set')
+        return 'built'
     if len(wq) != len(acc['quals']):
         L.fail('qualifiers differ from what was set')
     else:
@@ -260,6 +276,13 @@ def queries(tier):
                 for m2 in SET:
                     if m1 < m2:
                         addseq(T, ty, 'n', [('with_namespace', 'g'), (m1, H(2, 'a')), (m2, H(2, 'b'))])
+    # the checksum key: empty = unset, malformed = refused, otherwise canonicalised
+    for T, ty in (('String', 't'), ('Purl', 'gem')):
+        for n in lens(4 if th else 3):
+            addseq(T, ty, 'n', [('with_qualifier', 'checksum', H(n))])
+        addseq(T, ty, 'n', [('with_qualifier', 'checksum', 'sha1:00ff'), ('with_qualifier', 'CHECKSUM', H(1))])
+        addseq(T, ty, 'n', [('with_qualifier', 'CheckSum', 'B:00,a:'), ('with_qualifier', 'k', H(1))])
+        addseq(T, ty, 'n', [('with_qualifier', 'checksum', H(2)), ('without_qualifier', 'Checksum')])
     for n in lens(3 if th else 2):
         addseq('String', H(n, 't'), 'n', [])
         addseq('String', 't', 'n', [('with_package_type', H(n, 't'))])
@@ -317,7 +340,25 @@ def confirm(v, resp):
                 q[a[0].lower()] = a[1]
     if 'label' in v and 'commute' in v.get('label', ''):
         return 'calls on different fields do not commute (%s)' % v['label']
+    ck = q.get(b'checksum')
+    ck_bad = False
+    if ck:
+        ents = []
+        for e in ck.split(b','):
+            if b':' not in e:
+                ck_bad = True
+                break
+            a, h = e.rsplit(b':', 1)
+            if len(h) % 2 or not re.fullmatch(rb'[0-9a-fA-F]*', h):
+                ck_bad = True
+            ents.append((a.decode('utf8', 'replace').lower().encode(), h.lower()))
+        if not ck_bad and len({a for a, _ in ents}) != len(ents):
+            ck_bad = True
+        if not ck_bad:
+            q[b'checksum'] = b','.join(a + b':' + h for a, h in sorted(ents))
     if 'ok' not in resp:
+        if ck_bad and not err:
+            return None if 'InvalidQualifier' in resp.get('err', '') else 'malformed checksum refused with %s' % resp.get('err')
         if err and resp.get('err') == err:
             return None
         if err:
@@ -331,6 +372,8 @@ def confirm(v, resp):
     o = resp['ok']
     if err:
         return 'build() succeeds although with_qualifier had to fail'
+    if ck_bad:
+        return 'build() succeeds with a malformed checksum %r' % ck
     if f['name'] == b'':
         return 'PURL with an empty name built'
     if T != 'Purl' and hx(o['type']) != f['type'].lower():
